@@ -391,7 +391,7 @@ func decoderTotality(id, tier string, seed int64, col *exec.RawCollector, ev *Ev
 		return nil, nil, fmt.Errorf("batch decoding with NodeCodec.tla: %v", err)
 	}
 	var violations []string
-	replayDir := filepath.Join(VerifDir, "evidence", "replays")
+	replayDir := filepath.Join(OutDir, "evidence", "replays")
 	report := func(in []byte, msg string) {
 		_ = os.MkdirAll(replayDir, 0o755)
 		path := filepath.Join(replayDir, fmt.Sprintf("%s-decoder-%d-%d.json", id, seed, len(violations)))
